@@ -135,18 +135,30 @@ def cases(draw, mode=0):
         kind = draw(st.sampled_from(["bit", "bv", "u", "s", "u", "s"]))
         w = 1 if kind == "bit" else draw(st.sampled_from([2, 3, 4, 4, 5, 8, 8]))
         ctx = draw(st.sampled_from(["conc", "conc", "seq", "seq", "comb"]))
-        shape = draw(st.sampled_from(["assign", "assign", "if", "selw", "widen", "local", "arr", "enum", "sub"] if kind != "bit"
-                                     else ["assign", "if", "selw", "local"]))
+        shape = draw(st.sampled_from(["assign", "assign", "if", "selw", "selw", "match", "widen", "local", "arr", "enum", "sub"] if kind != "bit"
+                                     else ["assign", "if", "selw", "match", "local"]))
         depth = draw(st.integers(1, 3 if mode < 2 else 2))
         o = {"k": kind, "w": w, "ctx": ctx, "st": shape, "e": draw(expr(kind, w, depth))}
         if shape == "if":
             o["c"] = draw(expr("bool", 1, 1))
             o["e2"] = draw(expr(kind, w, 1))
-        elif shape == "selw":
-            sk = draw(st.sampled_from([("u", 2), ("bv", 2), ("s", 3), ("bit", 1), ("u", 4)]))
+        elif shape in ("selw", "match"):
+            sk = draw(st.sampled_from([("u", 2), ("bv", 2), ("s", 3), ("bit", 1), ("u", 4)] if shape == "selw" else [("u", 2), ("bv", 2), ("s", 3), ("u", 4)]))
             o["sel"] = {"k": sk[0], "w": sk[1], "e": draw(expr(sk[0], sk[1], 1)),
                         "keys": draw(st.lists(st.integers(0, (1 << sk[1]) - 1), min_size=1, max_size=(1 << sk[1]), unique=True)),
                         "default": draw(st.booleans())}
+            if draw(st.integers(0, 3)) == 0:
+                # the same choice value a second time (Python: first one wins): other key object / repeated pattern
+                o["sel"]["dup"] = True
+            if draw(st.integers(0, 3)) == 0:
+                # selector = element of an array signal, whole or sliced
+                hi = draw(st.integers(0, 3))
+                lo = draw(st.integers(0, hi))
+                whole = draw(st.booleans())
+                ek = draw(st.sampled_from(["u", "s", "bv"]))
+                o["sel"].update({"arr": {"ek": ek, "ix": draw(st.integers(0, 3)), "hi": hi, "lo": lo, "whole": whole},
+                                 "k": ek if whole else "bv", "w": 4 if whole else hi - lo + 1})
+                o["sel"]["keys"] = sorted({k & ((1 << o["sel"]["w"]) - 1) for k in o["sel"]["keys"]})
             o["e2"] = draw(expr(kind, w, 1))
         elif shape == "widen":
             nw = draw(st.integers(1, w))
@@ -164,6 +176,8 @@ def cases(draw, mode=0):
             o["ix2"] = draw(st.one_of(st.integers(0, 3).map(lambda v: ["lit", v]), expr("u", 2, 1)))
         elif shape == "enum":
             o["e2"] = draw(expr(kind, w, 1))
+        if ctx == "seq" and draw(st.integers(0, 3)) == 0:
+            o["alw"] = "expr" if shape in ("assign", "widen") and draw(st.booleans()) else "block"
         outs.append(o)
     stim = draw(st.lists(st.lists(st.integers(0, 255), min_size=len(PORTS), max_size=len(PORTS)), min_size=2, max_size=3))
     return {"g": "B", "outs": outs, "stim": stim}
@@ -243,9 +257,15 @@ def op_kinds(case):
                 kinds_of(o[key], acc)
         if o.get("sel"):
             kinds_of(o["sel"]["e"], acc)
+            if o["sel"].get("dup"):
+                acc.add("sel_dup")
+            if o["sel"].get("arr"):
+                acc.add("sel_arr")
         if o["st"] != "assign":
             acc.add("st_" + o["st"])
         acc.add("ctx_" + o["ctx"])
+        if o.get("alw"):
+            acc.add("always_" + o["alw"])
     return sorted(acc)
 
 
@@ -292,28 +312,48 @@ def render(case):
     conc = []
     seq = []
     comb = []
+    alw = []
     for i, o in enumerate(outs):
-        body = conc if o["ctx"] == "conc" else seq if o["ctx"] == "seq" else comb
+        octx = "conc" if o.get("alw") == "block" else o["ctx"]  # an always-block is rendered like a concurrent context
+        body = alw if o.get("alw") == "block" else conc if octx == "conc" else seq if octx == "seq" else comb
         tgt = f"self.o{i}"
         shape = o["st"]
         e = rx(o["e"])
         t = ty(o["k"], o["w"])
         if shape in ("assign", "widen"):
-            body.append(f"{tgt} <<= {e}")
+            body.append(f"{tgt} <<= cohdl.always({e})" if o.get("alw") == "expr" else f"{tgt} <<= {e}")
         elif shape == "if":
-            if o["ctx"] != "conc":
+            if octx != "conc":
                 body += [f"if {rx(o['c'])}:", f"    {tgt} <<= {e}", "else:", f"    {tgt} <<= {rx(o['e2'])}"]
             else:
                 body.append(f"{tgt} <<= {e} if {rx(o['c'])} else {rx(o['e2'])}")
-        elif shape == "selw":
+        elif shape in ("selw", "match"):
             s = o["sel"]
-            keys = ", ".join(f"{_key(s, k)}: {e if n == 0 else rx(o['e2'])}" for n, k in enumerate(s["keys"]))
-            dflt = f", default={rx(o['e2'])}" if s["default"] else ""
-            body.append(f"{tgt} <<= select_with({rx(s['e'])}, {{{keys}}}{dflt})")
+            if s.get("arr"):
+                a = s["arr"]
+                pre.append(f"selmem{i} = Signal[Array[{ty(a['ek'], 4)}, 4]]()")
+                body.append(f"selmem{i}[self.u2] <<= self.{ {'u': 'u4', 's': 's4', 'bv': 'v4'}[a['ek']] }")
+                selx = f"selmem{i}[{a['ix']}]" + ("" if a["whole"] else f"[{a['hi']}:{a['lo']}]")
+            else:
+                selx = rx(s["e"])
+            if shape == "match" and octx != "conc":
+                body.append(f"match {selx}:")
+                pats = [_pat(s, k) for k in s["keys"]]
+                if s.get("dup"):
+                    pats.append(pats[0])
+                for n, pt in enumerate(pats):
+                    body += [f"    case {pt}:", f"        {tgt} <<= {e if n == 0 else rx(o['e2'])}"]
+                body += ["    case _:", f"        {tgt} <<= {rx(o['e2'])}"]
+            else:
+                items = [f"{_key(s, k)}: {e if n == 0 else rx(o['e2'])}" for n, k in enumerate(s["keys"])]
+                if s.get("dup"):
+                    items.append(f"{_key2(s, s['keys'][0])}: {rx(o['e2'])}")
+                dflt = f", default={rx(o['e2'])}" if s["default"] else ""
+                body.append(f"{tgt} <<= select_with({selx}, {{{', '.join(items)}}}{dflt})")
         elif shape == "local":
             if o.get("lq") == "Variable":
                 body += [f"loc{i} = Variable[{t}]({e})", f"{tgt} <<= loc{i}"]
-            elif o["ctx"] != "conc":
+            elif octx != "conc":
                 body += [f"loc{i} = Signal[{t}]({e})", f"{tgt} <<= loc{i}"]
             else:
                 pre.append(f"loc{i} = Signal[{t}]()")
@@ -323,7 +363,7 @@ def render(case):
             body += [f"mem{i}[{rx(o['ix'])}] <<= {e}", f"{tgt} <<= mem{i}[{rx(o['ix2'])}]"]
         elif shape == "enum":
             pre.append(f"mode{i} = Signal[Mode](Mode.first)")
-            if o["ctx"] == "seq":
+            if octx == "seq":
                 body += [f"if mode{i} == Mode.first:", f"    mode{i}.next = Mode.second", f"    {tgt} <<= {e}",
                          f"elif mode{i} == Mode.second:", f"    mode{i}.next = Mode.third", "else:", f"    mode{i}.next = Mode.first",
                          f"    {tgt} <<= {rx(o['e2'])}"]
@@ -344,11 +384,16 @@ def render(case):
         w("        def logic():")
         for ln in conc:
             w("            " + ln)
-    if seq:
+    if seq or alw:
         w("        @std.sequential(std.Clock(self.clk))")
         w("        def proc():")
         for ln in seq:
             w("            " + ln)
+        if alw:
+            # statements of the same sequential context that are evaluated continuously (emitted next to the process)
+            w("            with cohdl.always:")
+            for ln in alw:
+                w("                " + ln)
     if comb:
         # sequential context without trigger: process whose sensitivity list is inferred from the signals it reads
         w("        @std.sequential")
@@ -356,6 +401,26 @@ def render(case):
         for ln in comb:
             w("            " + ln)
     return "\n".join(L) + "\n", "Top", {}
+
+
+def _pat(s, k):
+    """literal pattern of a match statement"""
+    if s["k"] == "bv":
+        return repr(format(k, "0%db" % s["w"]))
+    if s["k"] == "s":
+        return str(k - (1 << s["w"]) if k >= (1 << (s["w"] - 1)) else k)
+    return str(k)
+
+
+def _key2(s, k):
+    """a second key object with the same value as _key(s, k) (different Python object, so the dict keeps both)"""
+    if s["k"] == "bit":
+        return repr(str(k & 1))
+    if s["k"] == "bv":
+        return repr(format(k, "0%db" % s["w"]))
+    if s["k"] == "s":
+        return f"Signed[{s['w']}]({k - (1 << s['w']) if k >= (1 << (s['w'] - 1)) else k})"
+    return f"Unsigned[{s['w']}]({k})"
 
 
 def _key(s, k):
